@@ -612,3 +612,10 @@ Proof.
     { apply den_val; constructor. }
     constructor.
 Qed.
+
+(* a list has at most one denotation: "expand a = expand a'" is a statement about a function *)
+Theorem denote_functional : forall F a v v', denote F a v -> denote F a v' -> v = v'.
+Proof.
+  intros F a v v' H H'. pose proof (iterate_spec F a v H) as E. rewrite (iterate_spec F a v' H') in E.
+  now inversion E.
+Qed.
